@@ -312,6 +312,9 @@ def gen_case(rnd, nrows=None):
     src, lay = gen_source(rnd)
     k = nrows if nrows is not None else rnd.choice([1, 2, 3, 4, 6, 8, 12])
     rows = [gen_row(rnd, lay) for _ in range(k)]
+    if rows and rnd.random() < .3:         # the same row again, right after itself or later (no state may leak between rows)
+        i = rnd.randrange(len(rows))
+        rows.insert(rnd.choice([i + 1, i + 1, len(rows)]), json.loads(json.dumps(rows[i])))
     header = [r.upper() if r not in ('_', '*') else 'X' for r in lay['roles']]
     if rnd.random() < .1:
         header = rnd.choice([[], ['only'], header + ['more'], ['2024-01-02', 'looks like data', '5.00']])
@@ -411,6 +414,41 @@ def settings_corpus():
                        'tmpl_pieces': None, 'has_header': True if hh is None else hh}
                 out.append({'source': src, 'lay': lay, 'rows': rows, 'header': ['2024-05-09', 'LOOKS LIKE DATA', '1.00'],
                             'quoting': csv.QUOTE_MINIMAL, 'lt': '\n'})
+    return out
+
+
+def memo_corpus():
+    """State must not leak from one row (or one file) to the next: the SAME malformed date / amount / description cell
+    repeated after a good row (adjacent, non-adjacent, at the start of the file, at the start of the next file)."""
+    out = []
+
+    def good(j, de='SHOP'):
+        return {'cells': ['2024-06-%02d' % j, '%s %d' % (de, j), '%d.50' % j], 'kind': 'good', 'truth': 'accept',
+                'expect': {'date': '2024-06-%02dT00:00:00' % j, 'desc': '%s %d' % (de, j), 'value': [2 * j + 1, 2], 'field': None}}
+
+    def bad(cells):
+        return {'cells': cells, 'kind': 'repeated-bad', 'truth': 'reject'}
+    for bd in ['Pending', '2024-13-45', '06/05/2024', '2024-06-5x', 'n/a']:
+        patterns = [
+            [good(5), bad([bd, 'GAS', '40.00']), bad([bd, 'GAS AGAIN', '41.00']), good(7)],                      # adjacent
+            [good(5), bad([bd, 'GAS', '40.00']), bad([bd, 'GAS', '40.00']), bad([bd, 'THIRD', '1.00']), good(7)],
+            [good(5), bad([bd, 'GAS', '40.00']), good(6), bad([bd, 'GAS AGAIN', '41.00']), good(7)],             # non-adjacent
+            [bad([bd, 'FIRST', '40.00']), bad([bd, 'SECOND', '41.00']), good(7)],                                # nothing parsed yet
+            [bad([' ' + bd + ' ', 'PADDED', '40.00']), bad([bd, 'SECOND', '41.00'])],                            # next file starts with it
+        ]
+        for k, rows in enumerate(patterns):
+            src = {'name': 'Bank', 'format': '{date:%Y-%m-%d}, {description}, {amount}', 'has_header': bool(k % 2)}
+            lay = {'mode': 'desc', 'roles': ['date', 'description', 'amount'], 'names': [], 'date_format': '%Y-%m-%d', 'conv': '.',
+                   'kind': 'csv', 'delim_char': ',', 'regex': None, 'opt_last': False, 'tmpl_pieces': None, 'has_header': bool(k % 2)}
+            out.append({'source': src, 'lay': lay, 'rows': rows, 'header': ['D', 'T', 'A'], 'quoting': csv.QUOTE_MINIMAL, 'lt': '\n'})
+    # the same for a repeated malformed amount and a repeated blank description
+    for cells in [['2024-06-09', 'BAD AMOUNT', 'abc'], ['2024-06-09', 'BAD AMOUNT', '0.00'], ['2024-06-09', ' ', '3.00'],
+                  ['2024-06-09', 'SHORT']]:
+        rows = [good(5), bad(list(cells)), bad(list(cells)), good(7), bad(list(cells))]
+        src = {'name': 'Bank', 'format': '{date:%Y-%m-%d}, {description}, {amount}', 'has_header': False}
+        lay = {'mode': 'desc', 'roles': ['date', 'description', 'amount'], 'names': [], 'date_format': '%Y-%m-%d', 'conv': '.',
+               'kind': 'csv', 'delim_char': ',', 'regex': None, 'opt_last': False, 'tmpl_pieces': None, 'has_header': False}
+        out.append({'source': src, 'lay': lay, 'rows': rows, 'header': [], 'quoting': csv.QUOTE_MINIMAL, 'lt': '\n'})
     return out
 
 
@@ -549,7 +587,7 @@ def corpus_cases():
        [{'cells': ['2024-01-05', '4.50'], 'kind': 'short', 'truth': 'reject'},
         {'cells': ['2024-01-06', '5.50', 'SHOP'], 'kind': 'good', 'truth': 'accept',
          'expect': {'date': '2024-01-06T00:00:00', 'desc': 'xSHOP', 'value': [11, 2], 'field': [('merchant', 'SHOP')]}}])
-    return out + amount_corpus() + header_corpus() + date_corpus() + settings_corpus()
+    return out + amount_corpus() + header_corpus() + date_corpus() + settings_corpus() + memo_corpus()
 
 
 # =====================================================================================================
